@@ -2,7 +2,7 @@
     reference) and Expect/Refine.v (transfer to the model of the code). *)
 From Coq Require Import ZArith NArith List Bool Arith.
 Import ListNotations.
-From PV Require Import Base.PySeq Base.Rx Base.RxFacts Expect.Model Expect.Spec Expect.Refine Expect.SpecFacts.
+From PV Require Import Base.PySeq Base.Rx Base.RxFacts Expect.Model Expect.Spec Expect.Refine Expect.SpecFacts Expect.Wrappers Expect.WrappersFacts.
 
 (** For every history of expect-family calls (any searcher kind, patterns, window and timeout-0 flag per
     call) from any reachable state over any list of transport events: the text handed back so far - each
@@ -44,6 +44,65 @@ Print Assumptions C01_set_buffer_replaces.
 Theorem C01_engine_span : forall r t p a b, rx_search r t p = Some (a, b) -> a <= b.
 Proof. exact rx_search_span. Qed.
 Print Assumptions C01_engine_span.
+
+(** The file-like wrappers.  For every regex engine in which the compiled pattern '\r\n' matches only the text "\r\n",
+    every search window (None or >= 1), every reachable state and every list of transport events:
+    what readline() RETURNS followed by the pending text is what was pending plus what it read; an exception consumes
+    nothing; '' is returned only at EOF with nothing pending. *)
+Theorem C01_readline_returns_the_stream :
+  forall (rx : Type) (re_search : rx -> text -> nat -> option (nat * nat)) (crlf_rx : rx) (Wd : option nat),
+  (forall r t p a b, re_search r t p = Some (a, b) -> a <= b) ->
+  match Wd with Some w => 1 <= w | None => True end ->
+  (forall w a b, re_search crlf_rx w 0 = Some (a, b) -> firstn (b - a) (skipn a w) = crlf) ->
+  forall s evs, Inv s ->
+  match readline rx re_search crlf_rx Wd s evs with (r, s', e') =>
+    exists used, evs = used ++ e' /\ Inv s' /\
+    match r with
+    | WText l => l ++ pend s' = pend s ++ data_of used /\ (l = [] -> pend s' = [] /\ pend s ++ data_of used = [])
+    | WRaise _ => pend s' = pend s ++ data_of used
+    end
+  end.
+Proof. exact readline_conserves. Qed.
+Print Assumptions C01_readline_returns_the_stream.
+
+(** readlines() / iteration, any number of lines: the lines returned, concatenated, followed by the pending text are the
+    text received; when the loop ends normally (EOF) nothing is pending and the lines ARE the child's output; no line is empty *)
+Theorem C01_readlines_return_the_stream :
+  forall (rx : Type) (re_search : rx -> text -> nat -> option (nat * nat)) (crlf_rx : rx) (Wd : option nat),
+  (forall r t p a b, re_search r t p = Some (a, b) -> a <= b) ->
+  match Wd with Some w => 1 <= w | None => True end ->
+  (forall w a b, re_search crlf_rx w 0 = Some (a, b) -> firstn (b - a) (skipn a w) = crlf) ->
+  forall fuel s evs acc, Inv s ->
+  match readlines rx re_search crlf_rx Wd fuel s evs acc with (ls, fin, s', e') =>
+    exists used, evs = used ++ e' /\ Inv s' /\
+    concat ls ++ pend s' = concat acc ++ pend s ++ data_of used /\
+    (fin = LEnd -> pend s' = [] /\ concat ls = concat acc ++ pend s ++ data_of used) /\
+    (forall l, In l ls -> In l acc \/ l <> [])
+  end.
+Proof. exact readlines_conserves. Qed.
+Print Assumptions C01_readlines_return_the_stream.
+
+(** read() without a size returns everything up to EOF and leaves nothing pending *)
+Theorem C01_read_returns_the_stream :
+  forall (rx : Type) (re_search : rx -> text -> nat -> option (nat * nat)) (Wd : option nat),
+  (forall r t p a b, re_search r t p = Some (a, b) -> a <= b) ->
+  match Wd with Some w => 1 <= w | None => True end ->
+  forall s evs, Inv s ->
+  match read_all rx re_search Wd s evs with (r, s', e') =>
+    exists used, evs = used ++ e' /\ Inv s' /\
+    match r with
+    | WText t => t = pend s ++ data_of used /\ pend s' = []
+    | WRaise _ => pend s' = pend s ++ data_of used
+    end
+  end.
+Proof. exact read_all_conserves. Qed.
+Print Assumptions C01_read_returns_the_stream.
+
+(** the executable engine satisfies the premise about '\r\n' (indeed about every literal) *)
+Theorem C01_engine_literal : forall s t pos a b, rx_search (Lit s) t pos = Some (a, b) ->
+  b = a + length s /\ firstn (b - a) (skipn a t) = s.
+Proof. exact rx_search_lit. Qed.
+Print Assumptions C01_engine_literal.
 
 (** non-vacuity: a zero-width, end-anchored pattern on pending text "abc" keeps the text in before *)
 Example C01_end_anchor :
